@@ -3,7 +3,7 @@ from mirlib import *
 from ranges import *
 from shape import *
 from paths import *
-import r_decclass, r_inv, r_surr, r_pendcount, r_requeue, r_endian, r_utf8asm
+import r_decclass, r_inv, r_surr, r_pendcount, r_requeue, r_endian, r_utf8asm, r_prepend
 
 DEC_SURR_SCOPE = lambda nm: 'Decoder::' in nm or nm.startswith(('handles::Utf16Destination', 'handles::Utf8Destination', 'handles::convert_unaligned', 'utf_16::'))
 
@@ -411,4 +411,5 @@ def run(rep, facts, tier):
         n = r_surr.run(rep, f, c, 'R-SURR', DEC_SURR_SCOPE)
         rep.floor('R-SURR', 'surrogate-class tests on the decoder side (UTF-16 decoder, copy_utf16_from, convert_unaligned_utf16_to_utf8)', n, 10, c)
         r_utf8asm.run(rep, f, c, scope='utf_8::', floor=5)
+        r_prepend.run(rep, f, c)
     return ('other', MANIFEST['text'], [])
